@@ -1189,6 +1189,22 @@ def seg_a(ctx, name):
     return sym(ctx, name + '.fl', 2) + list(ctx.pick(name + '.entry', SEG_A_ENTRIES))
 
 
+def _segment_shapes():
+    """name -> (sub-sub-TLV type, value length) for every segment class of the live module which has an optional SID"""
+    import exabgp.bgp.message.update.attribute.tunnel_encap.sr_policy.segment_list as sl
+    out = {}
+    for name in dir(sl):
+        k = getattr(sl, name)
+        if isinstance(k, type) and name.startswith('SegmentType') and hasattr(k, 'SUBTYPE') and hasattr(k, 'VALUE_WITH_SID_SIZE') and hasattr(k, 'VALUE_BASE_SIZE'):
+            letter = name[len('SegmentType'):].lower()
+            out['type-%s' % letter] = (int(k.SUBTYPE), int(k.VALUE_BASE_SIZE), 0)
+            out['type-%s+sid' % letter] = (int(k.SUBTYPE), int(k.VALUE_WITH_SID_SIZE), int(k.VALUE_WITH_SID_SIZE) - int(k.VALUE_BASE_SIZE))
+    return out
+
+
+SEGMENT_SHAPES = _segment_shapes()
+
+
 def sh_tunnel_sub(sub, th):
     """one SR-policy tunnel (type 15) holding one sub-TLV of the given type"""
     def wrap(subitems, canon=(), why=''):
@@ -1239,8 +1255,19 @@ def sh_tunnel_sub(sub, th):
                 v = sym(ctx, 'fl', 1) + [0xff, 0x41]
             return wrap(hdr(len(v)) + v, None, 'name')
         if sub == 128:  # segment list: reserved(1) + sub-sub-TLVs (weight 9, segments 1..)
-            which = ctx.pick('which', ('empty', 'reserved-only', 'weight', 'type-a', 'type-b', 'weight+a+b', 'free'))
-            if which == 'empty':
+            which = ctx.pick('which', ('empty', 'reserved-only', 'weight', 'type-a', 'type-b', 'weight+a+b', 'free') + tuple(sorted(SEGMENT_SHAPES)))
+            if which in SEGMENT_SHAPES:
+                # segment types C .. K (RFC 9831 2.1): without and with the optional SID, every octet symbolic
+                subtype, n, sid = SEGMENT_SHAPES[which]
+                if sid == 4:
+                    # SR-MPLS SID: a label stack entry.  The 20-bit label and the 12 bits after it come from small sets (0 = IPv4
+                    # Explicit NULL is a legal SID), the rest of the segment is symbolic: shifts of a free 32-bit word time out
+                    label = ctx.pick('label', (0, 3, 16001, 1048575))
+                    low = ctx.pick('tc-s-ttl', (0x000, 0x1FF, 0xE40))
+                    v = sym(ctx, 'r', 1) + [subtype, n] + sym(ctx, 'seg', n - 4) + be(label * 4096 + low, 4)
+                else:
+                    v = sym(ctx, 'r', 1) + [subtype, n] + sym(ctx, 'seg', n)
+            elif which == 'empty':
                 v = []
             elif which == 'reserved-only':
                 v = sym(ctx, 'r', 1)
@@ -2020,7 +2047,7 @@ def enc_attr_units(tier):
     add('prefix-sid', prefix_sid, weight=20)
 
     def tunnel(ctx):
-        which = ctx.pick('which', ('preference', 'priority', 'binding-sid', 'binding-sid-null', 'names', 'segment-list', 'all'))
+        which = ctx.pick('which', ('preference', 'priority', 'binding-sid', 'binding-sid-null', 'names', 'segment-list', 'segment-types', 'all'))
         subs, exp = [], {}
 
         def put(obj, **given):
@@ -2050,12 +2077,35 @@ def enc_attr_units(tier):
             w, wf = ctx.int('weight', 0, U32), ctx.int('w.flags', 0, 255)
             put(_sp.SegmentListSubTLV(WeightSubSubTLV(w, wf), [SegmentTypeA(l0, f0), SegmentTypeA(l1, 0)]),
                 weight__weight=w, weight__flags=wf, segments__0__label=l0, segments__0__flags=f0, segments__0__s=False, segments__1__label=l1, segments__1__s=True)
+        if which == 'segment-types':
+            # segment types C .. H (RFC 9831 2.1) built as the text grammar builds them, with and without the optional SR-MPLS SID;
+            # SID 0 (IPv4 Explicit NULL) is a SID like any other
+            import inspect
+            import exabgp.bgp.message.update.attribute.tunnel_encap.sr_policy.segment_list as _sl
+            names = [n for n in sorted(dir(_sl)) if n.startswith('SegmentType') and 'tc' in inspect.signature(getattr(_sl, n).__init__).parameters
+                     and 'sid' in inspect.signature(getattr(_sl, n).__init__).parameters]
+            name = ctx.pick('segment-class', names)
+            klass = getattr(_sl, name)
+            sid = ctx.pick('sid', (None, 0, 3, 16001, 2 ** 20 - 1))
+            kw = {}
+            for pname in inspect.signature(klass.__init__).parameters:
+                if pname.endswith('ipv4') or pname == 'ipv4_node':
+                    kw[pname] = '192.0.2.%d' % (1 + len(kw))
+                elif pname.endswith('ipv6') or pname == 'ipv6_node':
+                    kw[pname] = '2001:db8::%d' % (1 + len(kw))
+                elif pname.endswith('if_id'):
+                    kw[pname] = 7 + len(kw)
+            kw['sid'] = sid
+            put(_sp.SegmentListSubTLV(WeightSubSubTLV(1, 0), [klass(**kw)]), segments__0__sid=sid)
+            ctx.cover('segment:' + name[len('SegmentType'):])
+            if sid == 0:
+                ctx.cover('sid-0')
         x = TunnelEncap([_sp.SRPolicyTunnel(subs)])
         # the encoder sets two bits whatever the object holds: flag 0x10 of a binding SID that has a label, and S on the last MPLS
         # segment of a list (RFC 3032): the VALUES are compared field by field, the binding SID flags are not, S is expected as
         # the encoder sets it, and of the renderings the text ones (json prints "s")
         return enc_attr(ctx, 'attr-23:' + which, x, 23, exp, renderings=('collection-str', '__str__'))
-    add('tunnel-encap', tunnel, weight=40)
+    add('tunnel-encap', tunnel, weight=40, cover=('encoded', 'decoded', 'sid-0'))
 
     # ---- BGP-LS attribute TLVs from their factories: the decoded content must be what was given to the factory
     def ls(ctx, kind, obj, tlv, expect):
